@@ -209,11 +209,30 @@ def _eval_closures(repo: Repo):
     for mod in ("series", "block_diagonalization", "algorithm_parsing"):
         tree = repo.trees[mod]
         names_as_eval = set()
+        # helpers that hand one of their parameters to BlockSeries as eval: a call of the helper is a construction site too
+        forwarders = {}
+        for g in tree.body:
+            if isinstance(g, ast.FunctionDef):
+                gp = {a.arg for a in g.args.args}
+                for n in ast.walk(g):
+                    if isinstance(n, ast.Call) and (call_name(n) or "").endswith("BlockSeries"):
+                        for k in n.keywords:
+                            if k.arg == "eval" and isinstance(k.value, ast.Name) and k.value.id in gp:
+                                forwarders[g.name] = (g, k.value.id)
         for n in ast.walk(tree):
-            if isinstance(n, ast.Call) and (call_name(n) or "").endswith("BlockSeries"):
-                for k in n.keywords:
-                    if k.arg == "eval":
-                        v = k.value
+            evs = []
+            if isinstance(n, ast.Call) and call_name(n) not in forwarders and (call_name(n) or "").endswith("BlockSeries"):
+                evs = [k.value for k in n.keywords if k.arg == "eval"]
+            elif isinstance(n, ast.Call) and call_name(n) in forwarders:
+                from .sem import bind_args
+                g, pname = forwarders[call_name(n)]
+                b = bind_args(g, n)
+                if b is None:
+                    raise AnalysisError("E2", f"{mod}: call of `{g.name}` (forwards `{pname}` to BlockSeries as eval) cannot be bound")
+                evs = [b[pname]]
+            if evs:
+                for v in evs:
+                    if True:
                         if isinstance(v, ast.Lambda):
                             out.append((mod, f"lambda@{_enclosing_name(v)}", v))
                         elif isinstance(v, ast.Name):
